@@ -519,6 +519,11 @@ func addTree(
 
 		switch {
 		case d.IsDir():
+			if NormalizeAbsoluteFilePath(destination) == "/" {
+				// a tree replicated at "/" has no entry for the root itself
+				return nil
+			}
+
 			info, err := d.Info()
 			if err != nil {
 				return fmt.Errorf("get directory information: %w", err)
